@@ -200,10 +200,14 @@ class AddData(Command):
     label = 'add data'
 
     def do(self, session):
+        # if the data is already in the collection, adding it is a no-op and
+        # undoing must then not remove it
+        self._added = self.data not in session.data_collection._data
         session.data_collection.append(self.data)
 
     def undo(self, session):
-        session.data_collection.remove(self.data)
+        if self._added:
+            session.data_collection.remove(self.data)
 
 
 class RemoveData(Command):
@@ -211,10 +215,14 @@ class RemoveData(Command):
     label = 'remove data'
 
     def do(self, session):
+        # if the data is not in the collection, removing it is a no-op and
+        # undoing must then not add it
+        self._removed = self.data in session.data_collection._data
         session.data_collection.remove(self.data)
 
     def undo(self, session):
-        session.data_collection.append(self.data)
+        if self._removed:
+            session.data_collection.append(self.data)
 
 
 class NewDataViewer(Command):
